@@ -28,7 +28,19 @@ type VerifC10Probe struct {
 var (
 	verifC10Probes sync.Map // endpoint URL -> *VerifC10Probe
 	verifC10Once   sync.Once
+	verifC10Holds  sync.Map // endpoint URL -> chan struct{} (closed on release)
 )
+
+// VerifC10Hold makes background unifications of endpointURL wait at their start until the returned
+// function is called.
+func VerifC10Hold(endpointURL string) (release func()) {
+	ch := make(chan struct{})
+	verifC10Holds.Store(endpointURL, ch)
+	return func() {
+		verifC10Holds.Delete(endpointURL)
+		close(ch)
+	}
+}
 
 // VerifC10Instrument returns a probe for reg if it is the unified registry, nil otherwise.
 func VerifC10Instrument(reg domain.ModelRegistry) *VerifC10Probe {
@@ -38,6 +50,13 @@ func VerifC10Instrument(reg domain.ModelRegistry) *VerifC10Probe {
 	}
 	verifC10Once.Do(func() {
 		verifhook.Set(func(name, key string) {
+			if name == "registry.unify" {
+				// gate: a background unification of this endpoint waits here while the harness holds it
+				if ch, ok := verifC10Holds.Load(key); ok {
+					<-ch.(chan struct{})
+				}
+				return
+			}
 			if name != "registry.unified" {
 				return
 			}
